@@ -145,7 +145,11 @@ structure Inv (s : SH) (cs : Clients) : Prop where
   last : s.lastTransport = some .self
   wrapped : ∃ t, s.clientTransport = some t ∧ t ≠ .self
 
-theorem setHTTPClient_inv (s : SH) (cs : Clients) (c : Nat) (hc : c < cs.length)
+/-- **SetHTTPClient never wraps twice.**  One `SetHTTPClient(c)` with ANY client of the pool — from a state in which the
+    SimpleHTTP is already installed somewhere (`lastTransport = self`, wrapped transport ≠ self), or from the fresh state of
+    the constructor (no client refers to the SimpleHTTP yet) — establishes the invariant: the current client's transport is
+    the SimpleHTTP, the wrapped transport is not; the interceptor list and the pool size are untouched. -/
+theorem C18_setHTTPClient_inv (s : SH) (cs : Clients) (c : Nat) (hc : c < cs.length)
     (h : s.lastTransport = some .self ∧ (∃ t, s.clientTransport = some t ∧ t ≠ .self) ∨
          s.lastTransport = none ∧ ∀ k : Nat, cs[k]? ≠ some (some Tr.self)) :
     Inv (setHTTPClient s cs c).1 (setHTTPClient s cs c).2 ∧
@@ -193,7 +197,9 @@ def setsValid (n : Nat) : List HOp → Prop
   | .book _ :: h => setsValid n h
   | .set c :: h => c < n ∧ setsValid n h
 
-theorem runH_inv (st : SH × Clients) (h : List HOp) (hinv : Inv st.1 st.2) (hv : setsValid st.2.length h) :
+/-- the invariant is preserved by every history of bookkeeping operations and `SetHTTPClient` calls, and the registered
+    list after the history is the one `Spec.book` prescribes (the induction behind `C18_client`) -/
+theorem C18_runH_inv (st : SH × Clients) (h : List HOp) (hinv : Inv st.1 st.2) (hv : setsValid st.2.length h) :
     Inv (runH st h).1 (runH st h).2 ∧ (runH st h).1.interceptors = Spec.book st.1.interceptors (bookOf h) := by
   induction h generalizing st with
   | nil => exact ⟨hinv, rfl⟩
@@ -213,7 +219,7 @@ theorem runH_inv (st : SH × Clients) (h : List HOp) (hinv : Inv st.1 st.2) (hv 
       cases op <;> simp [this, Spec.book]
     | set c =>
       obtain ⟨hc, hv'⟩ := hv
-      obtain ⟨hi, his, hlen⟩ := setHTTPClient_inv st.1 st.2 c hc (Or.inl ⟨hinv.last, hinv.wrapped⟩)
+      obtain ⟨hi, his, hlen⟩ := C18_setHTTPClient_inv st.1 st.2 c hc (Or.inl ⟨hinv.last, hinv.wrapped⟩)
       obtain ⟨h1, h2⟩ := ih (setHTTPClient st.1 st.2 c) hi (by rw [hlen]; exact hv')
       exact ⟨h1, by simp only [runH, bookOf]; rw [h2, his]⟩
 
@@ -229,8 +235,8 @@ theorem C18_client (beh : Nat → Req → Req × Bool) (cs : Clients) (c : Nat) 
     ∃ t, t ≠ .self ∧ st.1.clientTransport = some t ∧
       clientDo beh st.1 st.2 req = Spec.visit beh t (Spec.book is (bookOf h)) req := by
   intro st
-  obtain ⟨hi0, his0, hlen0⟩ := setHTTPClient_inv ⟨is, c, none, none⟩ cs c hc (Or.inr ⟨rfl, hfresh⟩)
-  obtain ⟨hinv, hbook⟩ := runH_inv (newSimpleHTTP cs c is) h hi0 (by unfold newSimpleHTTP; rw [hlen0]; exact hv)
+  obtain ⟨hi0, his0, hlen0⟩ := C18_setHTTPClient_inv ⟨is, c, none, none⟩ cs c hc (Or.inr ⟨rfl, hfresh⟩)
+  obtain ⟨hinv, hbook⟩ := C18_runH_inv (newSimpleHTTP cs c is) h hi0 (by unfold newSimpleHTTP; rw [hlen0]; exact hv)
   obtain ⟨t, ht, hne⟩ := hinv.wrapped
   refine ⟨t, hne, ht, ?_⟩
   unfold clientDo
